@@ -58,6 +58,7 @@ func NewModel(d *Desc) *Model {
 func (m *Model) MappingName() string { return m.d.Mappings[m.Mapping].Name }
 
 func (m *Model) lookupKey(sub string, code uint16) (KeyDef, bool) {
+	sub = subOfSK(sub) // both event nodes of a name share the mapping
 	mp := &m.d.Mappings[m.Mapping]
 	for _, k := range mp.Keys {
 		if k.Sub == sub && k.Code == code {
